@@ -5,9 +5,10 @@
    leader/follower boundary law ("no pair of elements that must meet is separated or met
    twice"); and (theorems C03_rt_...) the laws of the runtime operations themselves (Rt.split_equal,
    Rt.split_nonuniform, Rt.merge1, Rt.flatten1, Rt.unflatten1, Rt.tswizzle) for tries of ANY size: occupancy
-   splits are undone by mergeRanks, flattenRanks by unflattenRanks, identity swizzle is the identity.  NOT a theorem yet (hence _partial): the statement about whole emitted programs;
+   splits are undone by mergeRanks, flattenRanks by unflattenRanks, swizzleRanks by any permutation relocates every payload to the permuted path and is undone
+   by the inverse permutation.  NOT a theorem yet (hence _partial): the statement about whole emitted programs;
    that half is kernel-evaluated execution of every emitted program (tools/props/c03.py). *)
-From Coq Require Import ZArith List Sorted.
+From Coq Require Import ZArith List Sorted Permutation.
 Require Import TV.Model.Rt TV.Proofs.OccLaws TV.Proofs.RtLaws.
 Import ListNotations.
 
@@ -74,3 +75,23 @@ Qed.
 (* (g) swizzleRanks by the identity order is the identity on well-formed depth-n tries *)
 Theorem C03_rt_tswizzle_id : forall n t, wft n t \/ t = TNode [] -> tswizzle (seq 0 n) t = t.
 Proof. exact tswizzle_id. Qed.
+
+(* (g) swizzleRanks by ANY permutation of the n ranks: the result is again well-formed, holds at the permuted
+   path exactly what the original holds at the path, and swizzling by the inverse permutation restores the trie *)
+Theorem C03_rt_tswizzle_lookup : forall perm n t zs, Permutation perm (seq 0 n) -> wft n t -> length zs = n ->
+  wft n (tswizzle perm t) /\
+  tlookup (nth_perm perm (map VInt zs) VNone) (tswizzle perm t) = tlookup (map VInt zs) t.
+Proof. intros perm n t zs HP H Hzs. split; [apply tswizzle_wft; assumption|apply tswizzle_lookup; assumption]. Qed.
+
+Theorem C03_rt_tswizzle_inverse : forall perm perm' n t, Permutation perm (seq 0 n) -> Permutation perm' (seq 0 n) ->
+  (forall zs : list Z, length zs = n -> nth_perm perm' (nth_perm perm zs 0) 0 = zs) ->
+  wft n t -> tswizzle perm' (tswizzle perm t) = t.
+Proof. exact tswizzle_inverse. Qed.
+
+Theorem C03_rt_tswizzle_transpose_involution : forall t, wft 2 t -> tswizzle [1; 0]%nat (tswizzle [1; 0]%nat t) = t.
+Proof. exact tswizzle_transpose_involution. Qed.
+
+(* tries in canonical form are determined by their payloads *)
+Theorem C03_rt_wft_ext : forall n t1 t2, wft n t1 -> wft n t2 ->
+  (forall zs, length zs = n -> tlookup (map VInt zs) t1 = tlookup (map VInt zs) t2) -> t1 = t2.
+Proof. exact wft_ext. Qed.
